@@ -5,6 +5,7 @@ just fetched; R3 every failing step records where it failed, first error wins;
 R4 the line/column scan walks characters."""
 from ..core import callee_of, expr_walk, expr_str, return_defs, short, op_place, MissingAnchor
 from .. import awrite
+from ..pathq import edge_guards
 from ..pathq import bool_branch, exists_path_avoiding, blocks_after, natural_loops, try_continue_block
 
 EXPLANATION = (
@@ -32,12 +33,15 @@ def run(rep, facts, tier):
     rep.rule('C17.R3', 'every failing step records where it failed, at the failing ip, and the first recorded location wins')
     rep.rule('C17.R4', 'the line/column scan is driven by a character iterator')
     tracked = awrite.state_tracked(fx)
-    W = awrite.all_field_writes(fx, 'state', tracked)
+    W0 = awrite.all_field_writes(fx, 'state', tracked)
+    from .. import inline, stepfx
+    V = inline.View(fx)
+    W = inline.view_writes(fx, V, tracked, W0)      # unnamed helpers are looked through: their writes count where they are called
 
     # ---------- R1
     n = 0
     for fn, ws in sorted(W.items()):
-        f = fx.fns[fn]
+        f = V(fn)
         cw = [w for w in ws if w['field'][0] == 'code' and (w['how'].startswith('call:grow') or w['how'].startswith('call:shrink'))]
         dw = [w for w in ws if w['field'][0] == 'debug_map']
         for w in cw:
@@ -113,10 +117,9 @@ def run(rep, facts, tier):
     for fn, ws in sorted(W.items()):
         for w in ws:
             if w['field'][0] == 'last_token':
-                ok = fn in ('state::State::next_token', 'state::State::next_name', 'state::State::build0::{closure#0}')
+                ok = fn in ('state::State::next_token', 'state::State::next_name') or fn.split('::{closure')[0] == 'state::State::build0'
                 why = {'state::State::next_token': 'the fetch point', 'state::State::next_name':
-                       'reviewed exception: a missing name points back at the defining word', 'state::State::build0::{closure#0}':
-                       'the build-error mapper takes the token of record'}.get(fn, '%s overwrites the token of record' % short(fn))
+                       'reviewed exception: a missing name points back at the defining word', }.get(fn, 'the build-error recorder takes the token of record' if ok else '%s overwrites the token of record' % short(fn))
                 rep.add('C17.R2', 'C17.R2:last_token-writer:%s' % fn, ok, why, fn, w['at'], nontrivial=False)
 
     # ---------- R3
@@ -131,53 +134,59 @@ def run(rep, facts, tier):
     rep.add('C17.R3', 'C17.R3:fetch_and_run:ip-unchanged-on-error', bad is None,
             'no Err return of fetch_and_run is reachable after an ip write: a failing instruction leaves ip pointing at itself' if bad is None else
             'an Err return is reachable after the ip write in bb%d: the location lookup uses the wrong debug_map entry' % bad, far.name, far.j['span'])
+    from .. import inline, stepfx
+    V = inline.View(fx)
     for fn in ('state::State::run', 'state::State::next'):
-        f = fx.need(fn)
-        ok = False
-        for bb, t in f.calls():
-            if callee_of(t) == 'core::result::Result::<T, E>::map_err':
-                e0 = f.expr_of_operand(t['args'][0])
-                e1 = f.expr_of_operand(t['args'][1])
-                clo = [x for x in expr_walk(e1) if isinstance(x, tuple) and x[0] == 'closure']
-                from_step = any(isinstance(x, tuple) and x[0] == 'call' and x[1] == far.name for x in expr_walk(e0))
-                rec = clo and clo[0][1] in fx.fns and any(callee_of(t2) == 'state::State::set_runtime_err_location' for _, t2 in fx.fns[clo[0][1]].calls())
-                prop = try_continue_block(f, bb) is not None
-                if from_step and rec and prop:
-                    ok = True
+        fx.need(fn)
+        f = V(fn)
+        recorded, prop, how = stepfx.step_error_recorded(fx, f)
+        ok = recorded and prop
         rep.add('C17.R3', 'C17.R3:%s:error-exit-records-location' % fn, ok,
-                'fetch_and_run()\'s Err goes through map_err(|e| set_runtime_err_location(..)) before it is propagated' if ok else
-                '%s propagates a step error without recording its location' % short(fn), fn, f.j['span'])
+                'a failing step is recorded (%s) before its error is propagated' % how if ok else
+                '%s %s' % (short(fn), 'propagates a step error without recording its location' if not recorded else 'does not propagate the step error'),
+                fn, f.j['span'])
     sre = fx.need('state::State::set_runtime_err_location')
-    loc = any(callee_of(t) == 'state::State::location_from_current_ip' for _, t in sre.calls())
+    loc = 'state::State::location_from_current_ip' in fx.reachable_from([sre.name])
     lf = fx.need('state::State::location_from_current_ip')
     s0 = expr_str(lf.expr_of_local(0), -20)
     okloc = loc and 'debug_map' in s0 and ('State::ip' in s0 or 'ctx.ip' in s0)
     rep.add('C17.R3', 'C17.R3:set_runtime_err_location:reads-debug_map-at-ip', okloc,
             'location = token_location(debug_map[ip])' if okloc else 'run-time location is not looked up in debug_map at the current ip', sre.name, sre.j['span'])
-    # recorders write last_error only if none
-    for fn in ('state::State::set_runtime_err_location', 'state::State::build0::{closure#0}'):
-        f = fx.need(fn)
-        ws = [w for w in W.get(fn, []) if w['field'][0] == 'last_error' and w['how'] == 'assign']
-        ok = bool(ws)
-        dom = f.dominators()
+    # every store of an error context into last_error happens only if none is recorded yet
+    n_rec = 0
+    rec_fns = set()
+    for fn, ws in sorted(W.items()):
+        f = V(fn)
         for w in ws:
+            if w['field'][0] != 'last_error' or w['how'] != 'assign' or len(w['field']) > 1:
+                continue
+            val = expr_str(f.expr_of_rvalue(w['stmt']['rv'], 0, frozenset()), -20)
+            if 'ErrorContext' not in val:
+                continue          # clearing (None) is not a recording
+            n_rec += 1
+            rec_fns.add(fn)
             guarded = False
-            for b2 in f.reachable_blocks():
-                br = bool_branch(f, b2)
-                if br and isinstance(br[0], tuple) and br[0][0] == 'call' and br[0][1].endswith('::is_none') and 'last_error' in expr_str(br[0], -20):
-                    if br[1] in dom.get(w['bb'], ()) and len(f.pred(br[1])) == 1:
+            for (b2, e, side) in edge_guards(f, w['bb']):
+                if isinstance(e, tuple) and e[0] == 'call' and 'last_error' in expr_str(e, -20):
+                    if (e[1].endswith('::is_none') and side) or (e[1].endswith('::is_some') and not side):
                         guarded = True
-            ok = ok and guarded
-        rep.add('C17.R3', 'C17.R3:%s:first-location-wins' % fn, ok,
-                'last_error is written only when none is recorded yet (the innermost location is kept)' if ok else
-                '%s overwrites an already recorded error location: a run-time failure inside a meta block / immediate word is re-attributed to the last token fetched'
-                % short(fn), fn, ws[0]['at'] if ws else f.j['span'])
-    b0 = fx.need('state::State::build0')
-    fwd = [d for (bb, i, cls, d) in return_defs(b0)]
-    okb = fwd == ['core::result::Result::<T, E>::map_err'] and any(callee_of(t) == 'state::State::build1' for _, t in b0.calls())
+            rep.add('C17.R3', 'C17.R3:%s:first-location-wins' % fn, guarded,
+                    'last_error is written only when none is recorded yet (the innermost location is kept)' if guarded else
+                    '%s overwrites an already recorded error location: a run-time failure inside a meta block / immediate word is re-attributed to the last token fetched'
+                    % short(fn), fn, w['at'])
+    rep.floor('C17.R3 error recorders', n_rec, 2)
+    # build0: every error of build1 passes the build-error recorder before it is returned
+    fx.need('state::State::build0')
+    b0 = V('state::State::build0')
+    w0 = W.get('state::State::build0', [])
+    rec_blocks = {w['bb'] for w in w0 if w['field'][0] == 'last_error' and w['how'] == 'assign'}
+    recorded, prop, how = stepfx.step_error_recorded(fx, b0, step='state::State::build1', recorder='-', recorder_blocks=rec_blocks,
+                                                     closure_records=lambda g: g in rec_fns)
+    okb = recorded and prop
     rep.add('C17.R3', 'C17.R3:build0:every-error-passes-mapper', okb,
-            'build0 returns build1().map_err(mapper) and nothing else' if okb else 'build0 has a return that bypasses the build-error mapper: %s' % fwd,
-            b0.name, b0.j['span'])
+            'every Err of build1 is recorded (%s) and then returned' % how if okb else
+            'build0 %s' % ('returns an error of build1 that was not recorded' if not recorded else 'does not return the error of build1'),
+            'state::State::build0', b0.j['span'])
 
     # ---------- R4
     tl = fx.need('lex::token_location')
